@@ -1181,7 +1181,7 @@ func TestCheck(t *testing.T) {
 	rec.Assume("schema oracle: analyse() — generic-JSON analyser for the inconsistencies the property names (array without items; member position missing, colliding, out of range; JSON type definitely at odds with details.type at the top level); it returns 'nothing provable' for every shape it does not understand")
 	rec.Assume("not asserted: alias spellings in the stand-alone helper; preservation of internalType / stateMutability / payable / constant / anonymous; JSON type of nested members; 'integer' for address or fixed and 'number' for integer types (open readings); nil entries in a params list")
 	kABI := evid.NewKind(rec, "abi", judgeABI)
-	kSchema := evid.NewKind(rec, "schema", judgeSchema)
+	kSchema := evid.NewKind(rec, "schema", judgeSchema).DeclareEach()
 	rec.Corpus(t)
 
 	rec.Rapid(t, "abi", rec.N(1500, 15000), func(rt *rapid.T) {
@@ -1321,7 +1321,7 @@ func schemaClasses(src string, o schemaOutcome, meta bool) []string {
 func TestReplay(t *testing.T) {
 	rec := evid.Start("C20", rule)
 	evid.NewKind(rec, "abi", judgeABI)
-	evid.NewKind(rec, "schema", judgeSchema)
+	evid.NewKind(rec, "schema", judgeSchema).DeclareEach()
 	rec.Replay(t)
 }
 
